@@ -191,6 +191,22 @@ func attributePrograms() []*dsl.Program {
 		p.Opts = dsl.TargetOpts("gattr")
 		out = append(out, p)
 	}
+	// entries that are aliases of other entries (one and two steps), for every kind of target entry: a field typed
+	// by the alias means what a field of the target's type means, padding included
+	{
+		m := meta()
+		m[0].Entries = append(m[0].Entries,
+			&dsl.MetaEntry{Name: "Str", Kind: dsl.DynStr, Type: "string", Doc: "text"},
+			&dsl.MetaEntry{Name: "SymAlias", Kind: dsl.MetaRef, Ref: "Symbol", Doc: "alias of a char[4]"},
+			&dsl.MetaEntry{Name: "ZAlias", Kind: dsl.MetaRef, Ref: "ZSym", Doc: "alias of a zchar[4]"},
+			&dsl.MetaEntry{Name: "ZAlias2", Kind: dsl.MetaRef, Ref: "ZAlias", Doc: "alias of an alias"},
+			&dsl.MetaEntry{Name: "PxAlias", Kind: dsl.MetaRef, Ref: "Price"},
+			&dsl.MetaEntry{Name: "StrAlias", Kind: dsl.MetaRef, Ref: "Str"})
+		p := &dsl.Program{Name: "ATTR/alias-entries", Meta: m, Packets: []*dsl.Packet{dsl.Root("Msg",
+			dsl.Mr("SymAlias", "A"), dsl.Mr("ZAlias", "B"), dsl.Mr("ZAlias2", "C"), dsl.Mr("PxAlias", "D"), dsl.Mr("StrAlias", "E"), dsl.Rep(dsl.Mr("ZAlias", "F")), dsl.Mr("ZSym", "G"))}}
+		p.Opts = dsl.TargetOpts("gattralias")
+		out = append(out, p)
+	}
 	{
 		fs := []*dsl.Field{dsl.Mr("Price", "First"), dsl.Mr("Price", "Second")}
 		fs[0].Tag = 9
